@@ -11,15 +11,17 @@ TRUSTED_BASE = [
     "hand-written model coq/Model/Scrub.v of net_utils::scrub_request / scrub_sni and of the Debug form of authentication::Source",
     "translator tools/gen_tables.py -> Generated/LogFacts.v: a scan of every log_id! / format! / debug! / trace! ... invocation in lib/src (tests and the verif doors excluded, icmp_* excluded because 'request' there is an echo request) that prints a request with {:?}: each must pass it through scrub_request; shapes of the scrubbing functions, of Source's Debug, of the SNI log lines",
     "the capture sees what goes through the `log` crate at trace level from the endpoint library and its dependencies in the harness process; records the `tracing` crate keeps to itself are not seen",
-    "extraction + driver.ml, cross-checked against vm_compute; harness engines c20_run (wraps c01_session / c18_session under the capture) and c20_scrub (door verif::scrub)",
+    "extraction + driver.ml, cross-checked against vm_compute; harness engines c20_run (wraps c01_session / c18_session / single connections to the real listener under the capture), bin_run scenarios 2 and 4 (the real binary's log) and c20_scrub (door verif::scrub)",
 ]
 ASSUMPTIONS = [
-    "a secret is found if its bytes occur in a captured line verbatim, as the base64 token that carried it, or as the decoded user:password text",
+    "a secret is found if its bytes occur in a captured line verbatim, as the base64 token that carried it, or as the decoded user:password text; each of these also in the form {:?} gives a byte slice holding it (decimal numbers separated by ', ', as in [66, 97, 115])",
     "sessions through the real listener (TLS and QUIC) put the log lines of listen_tcp / on_new_tls_connection / quic_multiplexer under the capture as well",
 ]
 RULE = ("tunnel sessions over HTTP/1.1 and HTTP/2 with canaries in: the password of accepted credentials, the password of rejected credentials, a configured password "
         "never presented, a Bearer token, bytes >= 0x80, SNI credentials accepted and rejected; requests: CONNECT ip/name/no-port, _udp2, _check, GET/POST absolute; "
-        "service channels (ping, speedtest, reverse proxy, routing on the tunnel host) with Authorization and Cookie canaries; scrub functions on random header lists "
+        "service channels (ping, speedtest, reverse proxy, routing on the tunnel host) with Authorization and Cookie canaries; server names <label>.<host> for the main host "
+        "and for a host the endpoint does not serve (selection alone, the real listener, the real binary); a credentials label on an endpoint without authenticator; "
+        "HTTP/3 sessions with accepted and rejected credentials in-process and against the real binary; scrub functions on random header lists "
         "(repeated names, mixed case, values with quotes) and SNIs with 0..3 dots; non-trivial = every case; distinct = distinct scenario")
 
 CFGPW = b"CFGPW-0b5e1c-canary"
@@ -85,6 +87,16 @@ def gen_cases(rng, ctx):
                 for r in reqs[:rng.choice([5, 10, 15])]:
                     toks += r
                 wrap(1, needles, toks, "tunnel:auth%d-sni%d-%s%s" % (acfg, sni, "h3" if front == 3 else "h%d" % (2 if http2 else 1), "-listener" if front else ""), names)
+        # an endpoint without authenticator does not look at the credentials label of the server name, and must not show it either:
+        # CONNECT without Proxy-Authorization (and with one nobody checks) on a connection named <label>.localhost
+        if i < (4 if thorough else 1):
+            for http2, front in ((0, 0), (1, 0), (0, 1), (1, 1), (1, 3)):
+                toks = [[0, http2, 1, 1, front]] + req(1, b"@A", None, b"x") + req(1, b"@B", good) + req(6, b"http://@A/x", None)
+                wrap(1, needles, toks, "tunnel:no-authenticator-sni-label-%s%s" % ("h3" if front == 3 else "h%d" % (2 if http2 else 1), "-listener" if front else ""), names)
+            # HTTP/3 requests that present accepted and rejected credentials (what the QUIC / HTTP/3 library says at trace level about
+            # the fields it decodes is in the endpoint's log)
+            toks = [[1, 1, 0, 1, 3]] + req(1, b"@A", good, b"x") + req(1, b"@A", bad) + req(6, b"http://@A/x", good) + req(1, b"_check", bad2)
+            wrap(1, needles, toks, "tunnel:auth1-sni0-h3-listener-credentials", names)
         authz = ("AUTHZ-%s-canary" % tag).encode()
         cookie = ("COOKIE-%s-canary" % tag).encode()
         pauth = ("PAUTH-%s-canary" % tag).encode()
@@ -111,11 +123,34 @@ def gen_cases(rng, ctx):
             l = line("bin_run", [[2, logfile, 2], list(u.encode()), list(pw.encode()), list(wrong.encode()), [], list(label.encode())])
             cases.append(Case(l, None, kind="process:trace-log" + ("-file" if logfile else ""), nontrivial=True,
                               meta={"bin": True, "names": ["configured password", "rejected password", "their Basic tokens", "SNI credentials label"]}))
+    # the binary's log of secrets no authenticator looks at: a credentials label without authenticator, a credentials label in front of a
+    # host the endpoint does not serve, credentials on an HTTP/3 request (with and without a configured client)
+    for i in range(6 if thorough else 2):
+        tag = "%06x" % rng.below(1 << 24)
+        pw = "quietpw-%s-canary" % tag
+        l1, l2 = "sninoauth-%s-canary" % tag, "sniunk-%s-canary" % tag
+        u = "" if i % 2 == 0 else "canaryuser"
+        l = line("bin_run", [[4, i // 2 % 2, 2], list(u.encode()), list(pw.encode()), list(l1.encode()), list(l2.encode())])
+        cases.append(Case(l, None, kind="process:trace-log-" + ("no-authenticator" if not u else "h3-credentials"), nontrivial=True,
+                          meta={"bin": 4, "configured": bool(u),
+                                "needles": ["password %r" % pw, "Basic token of %s:%s" % (u or "canaryuser", pw), "credentials label of the server name %s.localhost" % l1,
+                                            "first label of the server name %s.otherhost.example" % l2]}))
     # what TlsDemux::select returns is logged with {:?}: an SNI carrying a credentials label
     for i in range(20 if thorough else 6):
         label = ("SNILABEL-%06x-canary" % rng.below(1 << 24)).encode()
         sni = label + b".localhost"
         wrap(5, [label], [list(sni)], "tls:connection-meta-debug", ["SNI credentials label"])
+    # a server name <credentials>.<host> whose host the endpoint does not serve (a client with a mistyped or outdated host name):
+    # the refusal is logged; through the selection alone and through the real listener
+    for i in range(12 if thorough else 4):
+        label = ("sniunk-%06x-canary" % rng.below(1 << 24)).encode()
+        host = rng.choice([b"otherhost.example", b"localhost.example", b"localhost.localdomain", b"example"])
+        sni = label + b"." + host
+        wrap(5, [label], [list(sni)], "tls:unknown-host-sni", ["first label of a server name of the form <credentials>.<host>"])
+        wrap(6, [label], [[i % 2, i // 2 % 2], list(sni)], "tls:unknown-host-sni-listener", ["first label of a server name of the form <credentials>.<host>"])
+    for i in range(4 if thorough else 1):
+        label = ("snilabel-%06x-canary" % rng.below(1 << 24)).encode()
+        wrap(6, [label], [[i % 2, 0], list(label + b".localhost")], "tls:main-host-sni-listener", ["SNI credentials label"])
     # the scrubbing functions against the model
     NAMES = ["authorization", "proxy-authorization", "cookie", "accept", "x-auth", "cookie2", "set-cookie", "host"]
     for i in range(300 if thorough else 80):
@@ -136,6 +171,28 @@ def judge(case, impl, model, spec, ctx):
     if impl == "999":
         return [("violation", "panic under the log capture (%s)" % case.kind)]
     t = impl.split()
+    if case.meta and case.meta.get("bin") == 4:
+        if impl == "996":
+            ctx.setdefault("skipped_env", []).append(case.kind)
+            return []
+        s1, answered, s3, code, lines, hits = untok(t[0])
+        if lines < 20:
+            return [("disagree", "the endpoint binary wrote only %d log lines at trace level" % lines)]
+        if hits:
+            k = untok(t[1])[0]
+            excerpt = bytes(untok(t[2])).decode("latin-1")
+            return [("violation", "%s: the endpoint binary's own log at trace level (%d lines) shows the %s in %d line(s): %s"
+                     % (case.kind, lines, case.meta["needles"][k], hits, excerpt[:280]))]
+        # the log was searched; whether the sessions took place as meant says what the search covered
+        if not case.meta["configured"] and s1 == 0:
+            ctx.setdefault("skipped_env", []).append(case.kind + ":no-answer")
+        elif not case.meta["configured"] and s1 != 200:
+            return [("disagree", "the endpoint binary without authenticator answered %d to a CONNECT on a connection named <label>.localhost" % s1)]
+        if s3 == 0:
+            ctx.setdefault("skipped_env", []).append(case.kind + ":http3")
+        elif s3 != 200:
+            return [("disagree", "the endpoint binary answered %d to CONNECT _check over HTTP/3 with %s" % (s3, "the configured credentials" if case.meta["configured"] else "no authenticator"))]
+        return []
     if case.meta and case.meta.get("bin"):
         if impl == "996":
             ctx.setdefault("skipped_env", []).append(case.kind)
@@ -176,6 +233,11 @@ def judge(case, impl, model, spec, ctx):
     head = untok(t[0])
     if len(head) > 2 and head[2] == 999:
         return [("violation", "panic under the log capture (%s)" % case.kind)]
+    if len(head) > 2 and head[2] == 996:
+        ctx.setdefault("skipped_env", []).append(case.kind)
+        return []
+    if case.kind.startswith("tls:") and head[0] == 0:
+        return [("disagree", "%s: nothing was logged at trace level" % case.kind)]
     out = []
     for k in range(1, len(t) - 1, 2):
         idx = untok(t[k])[0]
